@@ -670,7 +670,7 @@ func genProgram(seed uint64, o genOpts, avoidA, avoidB, avoidH, avoidI bool) str
 // top-level programs: unused expression statements and unused variable
 // initialisers at module scope, where bundling (tree shaking) removes whatever
 // ExprCanBeRemovedIfUnused / StmtsCanBeRemovedIfUnused accept
-func genTopLevel(seed uint64, avoidA, avoidB, avoidH bool) string {
+func genTopLevel(seed uint64, avoidA, avoidB, avoidH, avoidL bool) string {
 	r := NewRng(seed)
 	g := &gen{r: r, avoidA: avoidA, avoidB: avoidB, avoidH: avoidH, avoidI: true, noF0: true}
 	s := &sb{}
@@ -720,6 +720,42 @@ func genTopLevel(seed uint64, avoidA, avoidB, avoidH bool) string {
 		}
 		if r.Chance(25) {
 			s.line("$(%d, %s);", g.nextProbe(), g.exprTop(1))
+		}
+	}
+	if !avoidL {
+		// hoisted redeclarations: block-level functions and same-named var in sibling
+		// or nested blocks, var redeclared in a nested block / if / for / switch
+		// (tree shaking must keep the later assignment; known finding L)
+		k := r.Range(2, 5)
+		for i := 0; i < k; i++ {
+			g.tmp++
+			nm := fmt.Sprintf("rd%d", g.tmp)
+			first := []string{
+				fmt.Sprintf("var %s = %s;", nm, g.primLit()),
+				fmt.Sprintf("function %s() {}", nm),
+				fmt.Sprintf("{ function %s() {} }", nm),
+				fmt.Sprintf("if (a) { function %s() {} }", nm),
+				fmt.Sprintf("var %s;", nm),
+			}[r.Intn(5)]
+			second := []string{
+				fmt.Sprintf("{ var %s = %s; }", nm, g.primLit()),
+				fmt.Sprintf("{ { var %s = %s; } }", nm, g.primLit()),
+				fmt.Sprintf("if (%s) { var %s = %s; }", []string{"1", "b", "!a", "0"}[r.Intn(4)], nm, g.primLit()),
+				fmt.Sprintf("for (var %s = %s; false;) ;", nm, g.primLit()),
+				fmt.Sprintf("switch (1) { case 1: var %s = %s; }", nm, g.primLit()),
+				fmt.Sprintf("try { var %s = %s; } catch (e) {}", nm, g.primLit()),
+				fmt.Sprintf("{ let q%d = 1; { var %s = %s; } }", g.tmp, nm, g.primLit()),
+				fmt.Sprintf("L%d: { var %s = %s; }", g.tmp, nm, g.primLit()),
+			}[r.Intn(8)]
+			if r.Chance(20) {
+				first, second = second, first
+			}
+			s.line("%s", first)
+			if r.Chance(30) {
+				s.line("$(%d, typeof %s);", g.nextProbe(), nm)
+			}
+			s.line("%s", second)
+			s.line("$(%d, [typeof %s, typeof %s === \"function\" ? \"fn\" : %s]);", g.nextProbe(), nm, nm, nm)
 		}
 	}
 	s.line("$(%d, [a, b]);", g.nextProbe())
@@ -1178,8 +1214,15 @@ func transformVariant(src string, loader api.Loader, ws, id, sx bool, r *Rng, o 
 		}
 		return string(res.OutputFiles[0].Contents), desc, true
 	}
+	var format api.Format
+	if forceOpts&16 != 0 {
+		// not bundled but format=iife: tree shaking of top-level statements is on
+		format = api.FormatIIFE
+		desc += ",format=iife"
+	}
 	res := api.Transform(src, api.TransformOptions{
 		Loader:            loader,
+		Format:            format,
 		MinifyWhitespace:  ws,
 		MinifyIdentifiers: id,
 		MinifySyntax:      sx,
@@ -1244,6 +1287,7 @@ type known struct {
 	id, what, source, base string
 	loader                 api.Loader
 	sx                     bool
+	iife                   bool // format=iife (tree shaking of top-level statements is on)
 }
 
 // The two findings of DESIGN section 7 for C03, replayed on every run. When one
@@ -1251,14 +1295,15 @@ type known struct {
 // known_findings.json) and the random stream avoids that family, so that any
 // OTHER failing input is still reported.
 var knownInputs = []known{
-	{"A", "known-A-unused-object-computed-key-uses-string-addition", "var k = sym; ({[k]: 1}); $(1, 1);", "var k = sym; ({[k]: 1}); $(1, 1);", api.LoaderJS, true},
-	{"B", "known-B-pow-special-cases-fold-to-1", "enum E { A = 1 ** (0/0) }\n$(1, E.A);", "$(1, 1 ** (0/0));", api.LoaderTS, false},
-	{"H", "known-H-string-addition-reassociation-reorders-toprimitive", "var ob = $o(900, 1);\n$(1, ob + \"\" + `x${$(2, \"t\")}`);", "var ob = $o(900, 1);\n$(1, ob + \"\" + `x${$(2, \"t\")}`);", api.LoaderJS, false},
-	{"I", "known-I-single-use-substitution-into-short-circuit-past-radix-bigint", "(function() {\n  function fn() { $(1, \"called\"); return 7; }\n  function t() { let x = fn(); return 0x0n && x; }\n  $(2, t());\n})();", "(function() {\n  function fn() { $(1, \"called\"); return 7; }\n  function t() { let x = fn(); return 0x0n && x; }\n  $(2, t());\n})();", api.LoaderJS, true},
-	{"H2", "known-H2-string-addition-reassociation-drops-empty-string-conversion", "var ob = $o(900, 1);\n$(1, ob + \"\" + ($(2, \"t\") + \"\" + 1));", "var ob = $o(900, 1);\n$(1, ob + \"\" + ($(2, \"t\") + \"\" + 1));", api.LoaderJS, false},
-	{"J", "known-J-optional-chain-insertion-extends-parenthesized-chain", "(function() {\n  function t(a) { a != null && (a.q?.y).z; return 1; }\n  try { $(1, t({q: null})); } catch (e) { $(2, e instanceof TypeError ? \"TypeError\" : \"other\"); }\n})();", "(function() {\n  function t(a) { a != null && (a.q?.y).z; return 1; }\n  try { $(1, t({q: null})); } catch (e) { $(2, e instanceof TypeError ? \"TypeError\" : \"other\"); }\n})();", api.LoaderJS, true},
-	{"K", "known-K-pure-optional-call-unwrapped-evaluates-arguments", "(function() {\n  function t(a) { /* @__PURE__ */ a?.($(1, \"x\")); return 1; }\n  $(2, t(null));\n})();", "(function() {\n  function t(a) { /* @__PURE__ */ a?.($(1, \"x\")); return 1; }\n  $(2, t(null));\n})();", api.LoaderJS, true},
-	{"G", "known-G-pow-finite-result-not-within-rounding-error", "enum E { A = 1e300 ** 0.1 }\n$(1, E.A);", "$(1, 1e300 ** 0.1);", api.LoaderTS, false},
+	{"A", "known-A-unused-object-computed-key-uses-string-addition", "var k = sym; ({[k]: 1}); $(1, 1);", "var k = sym; ({[k]: 1}); $(1, 1);", api.LoaderJS, true, false},
+	{"B", "known-B-pow-special-cases-fold-to-1", "enum E { A = 1 ** (0/0) }\n$(1, E.A);", "$(1, 1 ** (0/0));", api.LoaderTS, false, false},
+	{"H", "known-H-string-addition-reassociation-reorders-toprimitive", "var ob = $o(900, 1);\n$(1, ob + \"\" + `x${$(2, \"t\")}`);", "var ob = $o(900, 1);\n$(1, ob + \"\" + `x${$(2, \"t\")}`);", api.LoaderJS, false, false},
+	{"I", "known-I-single-use-substitution-into-short-circuit-past-radix-bigint", "(function() {\n  function fn() { $(1, \"called\"); return 7; }\n  function t() { let x = fn(); return 0x0n && x; }\n  $(2, t());\n})();", "(function() {\n  function fn() { $(1, \"called\"); return 7; }\n  function t() { let x = fn(); return 0x0n && x; }\n  $(2, t());\n})();", api.LoaderJS, true, false},
+	{"H2", "known-H2-string-addition-reassociation-drops-empty-string-conversion", "var ob = $o(900, 1);\n$(1, ob + \"\" + ($(2, \"t\") + \"\" + 1));", "var ob = $o(900, 1);\n$(1, ob + \"\" + ($(2, \"t\") + \"\" + 1));", api.LoaderJS, false, false},
+	{"J", "known-J-optional-chain-insertion-extends-parenthesized-chain", "(function() {\n  function t(a) { a != null && (a.q?.y).z; return 1; }\n  try { $(1, t({q: null})); } catch (e) { $(2, e instanceof TypeError ? \"TypeError\" : \"other\"); }\n})();", "(function() {\n  function t(a) { a != null && (a.q?.y).z; return 1; }\n  try { $(1, t({q: null})); } catch (e) { $(2, e instanceof TypeError ? \"TypeError\" : \"other\"); }\n})();", api.LoaderJS, true, false},
+	{"K", "known-K-pure-optional-call-unwrapped-evaluates-arguments", "(function() {\n  function t(a) { /* @__PURE__ */ a?.($(1, \"x\")); return 1; }\n  $(2, t(null));\n})();", "(function() {\n  function t(a) { /* @__PURE__ */ a?.($(1, \"x\")); return 1; }\n  $(2, t(null));\n})();", api.LoaderJS, true, false},
+	{"L", "known-L-nested-var-redeclaration-dropped-by-tree-shaking", "var x1 = 1;\n{ var x1 = \"d18\"; }\n$(1, typeof x1);\n{ function x2() {} }\n{ { var x2 = \"d18\"; } }\n$(2, typeof x2);", "var x1 = 1;\n{ var x1 = \"d18\"; }\n$(1, typeof x1);\n{ function x2() {} }\n{ { var x2 = \"d18\"; } }\n$(2, typeof x2);", api.LoaderJS, true, true},
+	{"G", "known-G-pow-finite-result-not-within-rounding-error", "enum E { A = 1e300 ** 0.1 }\n$(1, E.A);", "$(1, 1e300 ** 0.1);", api.LoaderTS, false, false},
 }
 
 func runGlue(r *Rng, n int, tier string, st *Stats) {
@@ -1274,7 +1319,11 @@ func runGlue(r *Rng, n int, tier string, st *Stats) {
 		var codes []string
 		var ok []bool
 		for _, k := range knownInputs {
-			res := api.Transform(k.source, api.TransformOptions{Loader: k.loader, MinifySyntax: k.sx, LogLevel: api.LogLevelSilent})
+			opts := api.TransformOptions{Loader: k.loader, MinifySyntax: k.sx, LogLevel: api.LogLevelSilent}
+			if k.iife {
+				opts.Format = api.FormatIIFE
+			}
+			res := api.Transform(k.source, opts)
 			codes = append(codes, k.base, string(res.Code))
 			ok = append(ok, len(res.Errors) == 0)
 		}
@@ -1291,6 +1340,14 @@ func runGlue(r *Rng, n int, tier string, st *Stats) {
 			}
 		}
 	}
+	if os.Getenv("C03_NO_AVOID") != "" {
+		// debugging aid: generate the known-bad families too
+		for k := range avoid {
+			if strings.Contains(os.Getenv("C03_NO_AVOID"), k) {
+				delete(avoid, k)
+			}
+		}
+	}
 	st.Extra["avoid_known_A"] = avoid["A"]
 	st.Extra["avoid_known_B"] = avoid["B"]
 	st.Extra["avoid_known_H"] = avoid["H"]
@@ -1298,6 +1355,7 @@ func runGlue(r *Rng, n int, tier string, st *Stats) {
 	st.Extra["avoid_known_H2"] = avoid["H2"]
 	st.Extra["avoid_known_J"] = avoid["J"]
 	st.Extra["avoid_known_K"] = avoid["K"]
+	st.Extra["avoid_known_L"] = avoid["L"]
 	if avoid["H2"] {
 		avoid["H"] = true // same family: the generator avoids both shapes
 	}
@@ -1315,7 +1373,7 @@ func runGlue(r *Rng, n int, tier string, st *Stats) {
 		case i%10 == 5:
 			jobs = append(jobs, glueJob{kind: "skeleton", seed: seed, source: genSkeleton(seed), loader: api.LoaderJS})
 		case i%10 == 6:
-			jobs = append(jobs, glueJob{kind: "top-level", seed: seed, source: genTopLevel(seed, avoid["A"], avoid["B"], avoid["H"]), loader: api.LoaderJS})
+			jobs = append(jobs, glueJob{kind: "top-level", seed: seed, source: genTopLevel(seed, avoid["A"], avoid["B"], avoid["H"], avoid["L"]), loader: api.LoaderJS})
 		case i%10 == 7:
 			jobs = append(jobs, glueJob{kind: "fold-table", seed: seed, source: genFoldTable(seed, avoid["B"], false), loader: api.LoaderJS})
 		case i%10 == 8:
@@ -1353,9 +1411,15 @@ func runGlue(r *Rng, n int, tier string, st *Stats) {
 				if r.Chance(40) {
 					force &= 7 // bundling is slower: fewer
 				}
+				if force&8 == 0 && r.Chance(15) {
+					force |= 16
+				}
 			} else if job.kind == "top-level" {
-				if r.Chance(70) {
+				switch r.Intn(5) {
+				case 0, 1:
 					force = 8 // bundle: tree shaking of top-level statements
+				case 2, 3:
+					force = 16 // transform with format=iife: tree shaking without bundling
 				}
 			} else if r.Chance(20) {
 				force = 8
